@@ -213,7 +213,7 @@ def history_search(ctx):
                 ex = (fresh or objs)[name]
                 obs = observe(ex, dflt)
                 ctx.evaluations += 1
-                key = (name, None if dflt is None else tuple(sorted(dflt.items())))
+                key = (name, None if dflt_pristine is None else tuple(sorted(dflt_pristine.items())))
                 problem = None
                 verdict = 'skipped' if (obs[0] == 'raised' and obs[1] == 'Skipped') else obs[0]     # an all-skipped doctest ends in pytest's Skipped
                 if name in EXPECT_VERDICT and verdict != EXPECT_VERDICT[name]:
